@@ -18,15 +18,15 @@ type chainRow struct {
 var rootVar = wire.Bytes("root")
 
 // c10Group executes P ? (C), P, and the rewritten condition on every item.
-func c10Group(P []wire.Node, c c10Row, doc wire.Value, lax bool) (Group, error) {
+func c10Group(P []wire.Node, c c10Row, doc wire.Value, base []wire.Var, lax bool) (Group, error) {
 	filt := wire.Node{K: "filter", P: &c.C}
 	mainPath := wire.Path{Lax: lax, Chain: append(append([]wire.Node{}, P...), filt)}
 	g := Group{Kind: "C10", Lax: lax}
-	m, err := execG(mainPath, doc, nil, false)
+	m, err := execG(mainPath, doc, base, false)
 	if err != nil {
 		return g, err
 	}
-	pre, err := execG(wire.Path{Lax: lax, Chain: P}, doc, nil, false)
+	pre, err := execG(wire.Path{Lax: lax, Chain: P}, doc, base, false)
 	if err != nil {
 		return g, err
 	}
@@ -36,7 +36,7 @@ func c10Group(P []wire.Node, c c10Row, doc wire.Value, lax bool) (Group, error) 
 		if lax {
 			items = flattenLax(items)
 		}
-		vars := []wire.Var{{K: rootVar, V: doc}}
+		vars := append(append([]wire.Var{}, base...), wire.Var{K: rootVar, V: doc})
 		for _, x := range items {
 			r, err := execG(wire.Path{Lax: lax, Pred: true, Chain: []wire.Node{c.CR}}, x, vars, false)
 			if err != nil {
@@ -48,16 +48,16 @@ func c10Group(P []wire.Node, c c10Row, doc wire.Value, lax bool) (Group, error) 
 	return g, nil
 }
 
-func c10Conj(P []wire.Node, c1, c2 wire.Node, doc wire.Value) (Group, error) {
+func c10Conj(P []wire.Node, c1, c2 wire.Node, doc wire.Value, base []wire.Var) (Group, error) {
 	f1, f2 := wire.Node{K: "filter", P: &c1}, wire.Node{K: "filter", P: &c2}
 	and := wire.Node{K: "bin", Op: "and", L: []wire.Node{c1}, R: []wire.Node{c2}}
 	fa := wire.Node{K: "filter", P: &and}
 	g := Group{Kind: "C10conj", Lax: false}
-	a, err := execG(wire.Path{Chain: append(append([]wire.Node{}, P...), f1, f2)}, doc, nil, false)
+	a, err := execG(wire.Path{Chain: append(append([]wire.Node{}, P...), f1, f2)}, doc, base, false)
 	if err != nil {
 		return g, err
 	}
-	b, err := execG(wire.Path{Chain: append(append([]wire.Node{}, P...), fa)}, doc, nil, false)
+	b, err := execG(wire.Path{Chain: append(append([]wire.Node{}, P...), fa)}, doc, base, false)
 	if err != nil {
 		return g, err
 	}
@@ -90,6 +90,12 @@ func init() {
 			rc.infra("%v", err)
 			return
 		}
+		varRows, err := readNDJSON[VarsRow](filepath.Join(rc.Dir, "vars.ndjson"))
+		if err != nil || len(varRows) == 0 {
+			rc.infra("vars: %v", err)
+			return
+		}
+		base := varRows[0].Vars
 		type job struct {
 			p, c, d int
 			lax     bool
@@ -104,14 +110,14 @@ func init() {
 		}
 		groups, err := buildGroups(len(jobs), func(i int) ([]Group, error) {
 			j := jobs[i]
-			g, err := c10Group(prefs[j.p].Chain, conds[j.c], docs[j.d].Doc, j.lax)
+			g, err := c10Group(prefs[j.p].Chain, conds[j.c], docs[j.d].Doc, base, j.lax)
 			if err != nil {
 				return nil, err
 			}
 			out := []Group{g}
 			if !j.lax {
 				c2 := conds[((j.c+1)*7)%len(conds)] // the same pairing MC_C10 checks on the specification
-				cg, err := c10Conj(prefs[j.p].Chain, conds[j.c].C, c2.C, docs[j.d].Doc)
+				cg, err := c10Conj(prefs[j.p].Chain, conds[j.c].C, c2.C, docs[j.d].Doc, base)
 				if err != nil {
 					return nil, err
 				}
@@ -127,5 +133,20 @@ func init() {
 		rc.cov("rule", "prefix paths x filter conditions (comparisons of @, @.a, @[*], @.size() with literals of every type; exists; starts with; like_regex; && || !; is unknown; a nested filter; conditions failing suppressibly and non-suppressibly; conditions that look at $) x all JSON trees up to MaxNodes nodes plus nested-array documents x {lax, strict}; each group = the filter query, the prefix query and one predicate-check query per item; strict mode adds the consecutive-filters group")
 		rc.cov("universe", map[string]any{"prefixes": len(prefs), "conditions": len(conds), "docs": len(docs), "groups": len(groups), "constants": consts})
 		rc.groupFamily(groups, rerunGroup, "C10")
+
+		// The filter queries themselves against the rules: "true" in the
+		// property means true by the documented rules (PathSem), so a filter
+		// query that differs from them is a C10 violation too.
+		u := &ExecUniverse{Docs: docs, Vars: []VarsRow{{Vars: base}}}
+		for p := range prefs {
+			for c := range conds {
+				cc := conds[c].C
+				chain := append(append([]wire.Node{}, prefs[p].Chain...), wire.Node{K: "filter", P: &cc})
+				u.Paths = append(u.Paths, PathRow{Chain: chain})
+			}
+		}
+		u.cross([]bool{true, false})
+		rc.cov("filter_queries_judged_against_the_rules", len(u.Cases))
+		rc.execFamily(u, "C10", "C01")
 	}
 }
